@@ -33,7 +33,7 @@ def streams(tier, rng, P, only=None, cases=None):
             body = body_with_params(rng, npar)
             args = [rng.choice(FRAGS[:15]) for _ in range(npar)]
             # (also string variables named like the words that read a system value — TIMEPTR, TIMEPOS, KEY_SHIFT are not reserved)
-            name = rng.choice(["#A", "#Mac", "STRV", "STRV", "TIMEPTR", "TIMEPOS", "KEY_SHIFT", "Flute", "Snare1", "GrandPiano"])      # (… and like voice / drum constants)
+            name = rng.choice(["#A", "#Mac", "#1", "#2nd", "#_x", "STRV", "STRV", "TIMEPTR", "TIMEPOS", "KEY_SHIFT", "Flute", "Snare1", "GrandPiano"])      # (… and like voice / drum constants)
             if name.startswith("#"): define = "%s={%s}" % (name, body); call0 = name
             else: define = "STR %s={%s};" % (name, body); call0 = name
             # (an argument position may be left empty: it still holds its place, the parameter is the empty text)
@@ -55,7 +55,7 @@ def streams(tier, rng, P, only=None, cases=None):
             # a whole string-variable body
             q = rng.choice(['"', '`']); inner = rng.choice(["c", "c d", "e8 g", "c d e"]); txt = q + inner + q
             k = rng.random()
-            if k < 0.4: body = "#?1 e"; args = [txt]; name = rng.choice(["#A", "#Mac"]); define = "%s={%s}" % (name, body); call = "%s({%s})" % (name, txt)
+            if k < 0.4: body = "#?1 e"; args = [txt]; name = rng.choice(["#A", "#Mac", "#1", "#_m"]); define = "%s={%s}" % (name, body); call = "%s({%s})" % (name, txt)
             elif k < 0.7: body = txt; args = []; define = "STR STRV={%s};" % txt; call = "STRV"
             else: body = "c #?2 #?1"; args = [txt, rng.choice(["d", txt])]; define = "STR STRV={%s};" % body; call = "STRV({%s},{%s})" % (args[0], args[1])
             raw.append(dict(define=define, call=call, site=rng.choice(["%s", "%s f", "[2 %s]"]), pre=rng.choice(["", "l8 "]), body=body, args=args))
@@ -87,6 +87,11 @@ def streams(tier, rng, P, only=None, cases=None):
             inl = unhx(o.split("out=")[1]).decode("utf-8", "replace") if "out=" in o else "?"
             a = r["pre"] + r["define"] + " " + (r["site"] % r["call"]) + " n100"
             b = r["pre"] + r["define"] + " " + (r["site"] % inl) + " n100"
+            if r["define"].startswith(("#1", "#2", "#_")):
+                # names that begin with a digit or an underscore: the inlined text stands without the definition (on the same lines), so that a
+                # definition that is not taken as one is seen
+                a = r["pre"] + r["define"] + "\n" + (r["site"] % r["call"]) + " n100"
+                b = r["pre"] + "\n" + (r["site"] % inl) + " n100"
             cs.append(dict(req="compile2 %s %s" % (hx(a), hx(b)), src=a, src2=b, show="%s   vs   %s" % (a[:160], b[:160]), key="m%d" % i))
         for j, (a, b) in enumerate([("OctaveUnison{cde} f", "Sub{> cde <} cde f"), ("Unison5th{cde} f", "Sub{ Key=7 cde Key=0 } cde f"),
                                     ("Unison3th{c d} f", "Sub{ Key=4 c d Key=0 } c d f"), ("Unison{cde},7 f", "Sub{ Key=7 cde Key=0 } cde f"),
